@@ -440,6 +440,23 @@ def run(ctx):
                     f = 'exception-%s: %s' % (c['op'], type(ex).__name__ + ':' + str(ex)[:100])
                 if f:
                     ctx.report(c, 'failure', f)
+    # qr with the documented epsilon keyword on data far below the default rank threshold: square, tall and wide, on every run
+    for (m_, n_) in ((2, 2), (3, 3), (3, 2), (4, 2), (2, 3), (2, 4), (3, 5)):
+        for P_ in (1, 2):
+            D_ = rng.randint(2, 4)
+            if m_ >= n_:
+                x_ = ops.gen_tall(rng, D_, P_, m_, n_)
+            else:
+                x_ = np.concatenate([ops.gen_tall(rng, D_, P_, m_, m_), rand_coeffs(rng, (D_, P_, m_, n_ - m_), -1, 1)], axis=3)
+            c = {'op': 'qr', 'D': D_, 'P': P_, 'x': x_, 'scale_log2': -52, 'qr_eps': 1e-40}
+            ctx.evaluations += 1
+            ctx.count('threshold-keyword=qr')
+            try:
+                f = check(c)
+            except Exception as ex:
+                f = 'exception-%s: %s' % (c['op'], type(ex).__name__ + ':' + str(ex)[:100])
+            if f:
+                ctx.report(c, 'failure', f)
     # the plain factorization (D = 1) of rank-deficient matrices, and matrices without rows / columns at every D: the factors
     # exist (QR of any matrix; empty factors), nothing needs to be inverted
     for kind in ('qr_full', 'qr'):
